@@ -92,7 +92,11 @@ func dev(names []string) {
 		}
 		r := prog.VerifyFuncRebinding(fi, func(obs []*vc.Obligation) int {
 			nfail := 0
-			for _, sr := range vc.SolveAll(obs, dir, 20, 8) {
+			devT := 20
+			if v := os.Getenv("GOVC_DEV_TIMEOUT"); v != "" {
+				fmt.Sscanf(v, "%d", &devT)
+			}
+			for _, sr := range vc.SolveAll(obs, dir, devT, 8) {
 				if sr.Ob.MustFail || sr.Ob.Kind == "aux" || sr.Ob.ThoroughOnly {
 					continue
 				}
@@ -117,7 +121,11 @@ func dev(names []string) {
 				obs = append(obs, o)
 			}
 		}
-		results := vc.SolveAll(obs, dir, 10, 12)
+		showT := 10
+		if v := os.Getenv("GOVC_DEV_TIMEOUT"); v != "" {
+			fmt.Sscanf(v, "%d", &showT)
+		}
+		results := vc.SolveAll(obs, dir, showT, 12)
 		for _, res := range results {
 			ok := res.Status == "unsat"
 			if res.Ob.MustFail {
